@@ -19,6 +19,7 @@ type Solver struct {
 	pr      *smtPrinter
 	vars    []*Term // declared variables in this session (for get-value)
 	varSeen map[string]bool
+	asserted map[string]bool
 	queries int
 	satN    int
 	unsatN  int
@@ -71,6 +72,7 @@ func (s *Solver) resetSession() {
 	s.pr = newSMTPrinter()
 	s.vars = nil
 	s.varSeen = map[string]bool{}
+	s.asserted = map[string]bool{}
 	if s.kind == "cvc5" {
 		s.send("(reset)\n(set-logic ALL)\n(set-option :produce-models true)\n")
 	} else {
@@ -111,6 +113,10 @@ func (s *Solver) Assert(t *Term) {
 	s.noteVars(t, map[*Term]bool{})
 	r := s.pr.ref(t)
 	s.send(s.pr.flush())
+	if s.asserted[r] {
+		return
+	}
+	s.asserted[r] = true
 	s.send("(assert " + r + ")\n")
 }
 
